@@ -7,6 +7,11 @@ CHECKS = {
    text="Every file of length <=4 (thorough <=6) x every sequence of <=3 disjoint Add calls (|blob|<=2, any call order) x 5 apply strategies x Dump/Load round trip, all proper prefixes of every dump, and the 4 GiB split rule on the patch structure; each case runs the real binpatch code and is compared with a reference splice. Exhaustive within those bounds.",
    note="Trusted: the reference splice in cmd/c12, the kernel's file semantics in /dev/shm. Not covered: files/blobs beyond the bounds, real >4 GiB files, overlapping ranges (not constructible by relic's builders).",
    ref="4/C12"),
+ "C20": dict(level="model_checking", engine="E3 BFS over event histories in virtual time",
+   technique="explicit-state BFS to fixpoint over check/advance/close event histories driving the real server health loop under a virtual clock, against a reference predicate on the history",
+   text="All reachable states of the real health machine (server.New + real healthCheckLoop goroutine compiled against a virtual clock) for N in {1,2,3,default}, 1-2 tokens x {ok,error,timeout}, elapsed-time steps on and just past the 3-interval threshold, disable flag; GET /health through the real handler is compared with the reference predicate in every state; Close (twice) at every transition target must end the loop goroutine and stop pings. BFS runs to fixpoint in the quick tier.",
+   note="Trusted: vtime shim (virtual clock/timers), scripted token, reference predicate. Goroutine exit is observed by polling runtime.Stack (10 s bound). Thorough adds off-grid time deltas in one depth-bounded (7) configuration, reported as not exhaustive.",
+   ref="4/C20"),
 }
 NOT_YET = {}
 ALL = ["C%02d" % i for i in range(1, 21)]
